@@ -817,3 +817,60 @@ Qed.
 Theorem enum_ok_in lower ku gu nu enum vs s v :
   enum_from lower ku gu nu enum vs s = Ok v -> In v vs /\ lower s = lower (shown ku v).
 Proof. unfold enum_from, parse. apply ok_in_any. apply groups_spec. Qed.
+
+(* ------------------------------------------------------------------ arm count: one arm per variant *)
+
+Section ArmCount.
+  Variable lower : str -> str.
+  Variables kf gf : ident -> str.
+
+  Definition total (m : list (str * list ident)) : nat := list_sum (map (fun g => length (snd g)) m).
+
+  Lemma arms_of_group_length g : length (arms_of_group gf g) = length (snd g).
+  Proof.
+    unfold arms_of_group. destruct g as [k ms]; cbn [fst snd].
+    destruct ms as [|a [|b ms]]; [reflexivity | reflexivity | apply map_length].
+  Qed.
+
+  Lemma all_arms_length gs : length (all_arms gf gs) = total gs.
+  Proof.
+    unfold all_arms, total. induction gs as [|g gs IH]; cbn [flat_map map list_sum]; [reflexivity|].
+    rewrite app_length, arms_of_group_length, IH. reflexivity.
+  Qed.
+
+  Lemma total_insert k v m : total (insert k v m) = S (total m).
+  Proof.
+    induction m as [|[k0 vs0] m IH]; [reflexivity|].
+    change (insert k v ((k0, vs0) :: m)) with (if str_eqb k k0 then (k0, vs0 ++ [v]) :: m else (k0, vs0) :: insert k v m).
+    change (total ((k0, vs0) :: m)) with (length vs0 + total m)%nat.
+    destruct (str_eqb k k0).
+    - change (total ((k0, vs0 ++ [v]) :: m)) with (length (vs0 ++ [v]) + total m)%nat.
+      rewrite app_length. cbn [length]. rewrite Nat.add_1_r. reflexivity.
+    - change (total ((k0, vs0) :: insert k v m)) with (length vs0 + total (insert k v m))%nat.
+      rewrite IH. rewrite Nat.add_succ_r. reflexivity.
+  Qed.
+
+  Lemma total_fold vs : forall m,
+    total (fold_left (fun m v => insert (lower (kf v)) v m) vs m) = (length vs + total m)%nat.
+  Proof.
+    induction vs as [|v vs IH]; intros m; cbn [fold_left length]; [reflexivity|].
+    rewrite IH, total_insert. lia.
+  Qed.
+
+  Lemma total_perm gs gs' : Permutation gs gs' -> total gs = total gs'.
+  Proof.
+    intros HP. unfold total, list_sum. induction HP as [|x l l' HP IH|x y l|l l' l'' HP1 IH1 HP2 IH2].
+    - reflexivity.
+    - cbn [map fold_right]. rewrite IH. reflexivity.
+    - cbn [map fold_right]. rewrite !Nat.add_assoc, (Nat.add_comm (length (snd y))). reflexivity.
+    - rewrite IH1. exact IH2.
+  Qed.
+
+  (** the generated `match` has exactly one arm per variant, whatever the iteration order of the map *)
+  Theorem arms_count vs gs' :
+    Permutation gs' (groups lower kf vs) -> length (all_arms gf gs') = length vs.
+  Proof.
+    intros HP. rewrite all_arms_length, (total_perm _ _ HP). unfold groups. rewrite total_fold.
+    unfold total. cbn. lia.
+  Qed.
+End ArmCount.
